@@ -3,9 +3,9 @@ CONSTANTS
   Geoms <- GeomsThorough
   MaxDepth = 2
   WideDepth = 1
-  WideGids <- Gids123
+  WideGids <- Gids13
   NarrowOps <- OpsNH
-  NarrowArity = 3
+  NarrowArity = 2
   MaxArity = 3
   Lanes = TRUE
   Record = FALSE
